@@ -113,7 +113,7 @@ def main():
     messages = []
     stage_name = "%s-%s" % (prop, tier)
     try:
-        stage_dir = vlib.stage(stage_name, "kani")
+        stage_dir = vlib.stage(stage_name, "kani", wide=(tier == "thorough"))
     except vlib.CannotEncode as e:
         print("INCONCLUSIVE property=%s cannot encode: %s" % (prop, e))
         finish(ev, prop, t0, harness_results, spec, messages, 2)
@@ -151,7 +151,7 @@ def main():
                                      harness_timeout=g.get("harness_timeout_s", 1200), exact=True)
                 pb = parse_playback(pres["out"])
                 if replay_dir is None:
-                    replay_dir = vlib.stage(stage_name + "-replay", "replay")
+                    replay_dir = vlib.stage(stage_name + "-replay", "replay", wide=(tier == "thorough"))
                 for h in failing:
                     hr = harness_results[h]
                     vals = pb.get(h)
